@@ -168,6 +168,7 @@ def evalRestartSync (outs : List String) : Verdict :=
 /-- heads learned while a sync is running must be synced as well -/
 def evalBurst (ins outs : List String) : Verdict :=
   if kv? ins "kind" == some "ranges" then evalRanges ins outs else
+  if kv? ins "kind" == some "forkrace" then evalForkRace outs else
   if kv? ins "kind" == some "addrace" then evalAddRace outs c03_store_ok else
   if kv? ins "kind" == some "emptiedwindow" then evalEmptiedWindow ins outs c03_store_ok else
   if kv? ins "kind" == some "restartsync" then evalRestartSync outs else
